@@ -44,7 +44,8 @@ InitState(cfg) ==
    tokens |-> [t \in Tokens |-> UnbornTok],
    regw   |-> NONE,
    gen    |-> 0,
-   cfg    |-> cfg]      \* cfg = [sw |-> storage wrapper in use, nidl |-> storage supports lookup by node id]
+   cfg    |-> cfg]      \* cfg = [sw |-> storage wrapper in use, nidl |-> storage supports lookup by node id,
+                        \*        so |-> store-once back end (a node record is never overwritten)]
 
 Present(st) == {k \in CertKeys : st.nodes[k].present}
 Live(tok) == tok.st \in {"fresh", "old"}
@@ -59,8 +60,13 @@ NewRecord(st, e, n, s) ==
   [present |-> TRUE, nonce |-> n, enc |-> e, state |-> s, srv |-> st.gen + 1,
    nid |-> NONE, prevk |-> NONE, prevsrv |-> 0, prevenc |-> NONE, kt |-> "ed"]
 
+\* On a store-once back end an existing record is returned instead of being overwritten (duplicate-record path);
+\* the server key generated for the refused record is still drawn (gen advances only when a record is written).
 AuthorizeCommon(st, k, e, n, s) ==
-  [st EXCEPT !.nodes[k] = NewRecord(st, e, n, s), !.gen = st.gen + 1]
+  IF st.cfg.so /\ st.nodes[k].present THEN st
+  ELSE [st EXCEPT !.nodes[k] = NewRecord(st, e, n, s), !.gen = st.gen + 1]
+\* the record the flow continues with after authorizeNodeCommon
+RecordAfter(st, k) == st.nodes[k]
 
 (***************************************************************************)
 (* Operator actions                                                        *)
@@ -109,6 +115,11 @@ DoTransplant(st, o) ==   \* copy the sealed creation time of token t2 into the r
   ELSE IF st.cfg.sw THEN Out("ok", [st EXCEPT !.tokens[o.t].st = "broken"])
   ELSE Out("ok", [st EXCEPT !.tokens[o.t].st = st.tokens[o.t2].st])   \* no wrapper: plain bytes, the time moves
 
+DoTransplantWhole(st, o) ==   \* the whole stored record of token t2 is written under the storage key of t
+  IF ~(Live(st.tokens[o.t]) /\ Live(st.tokens[o.t2]) /\ o.t # o.t2) THEN Out("skip", st)
+  ELSE IF st.cfg.sw THEN Out("ok", [st EXCEPT !.tokens[o.t] = [st |-> "broken", state |-> st.tokens[o.t2].state]])   \* the seal is bound to the id looked up
+  ELSE Out("skip", st)                                                               \* nothing is claimed without a storage wrapper
+
 (***************************************************************************)
 (* Fetch: registration.FetchNodeCredentials for a WELL-SIGNED, FRESH       *)
 (* request r = [k, e, n, life, ww, wk, wn, rby, rwith, rk, rn]              *)
@@ -137,7 +148,13 @@ DoFetch(st, r) ==
          ik == IF HasRewrapped(r) THEN r.rk ELSE r.wk
          in == IF HasRewrapped(r) THEN r.rn ELSE r.wn
      IN IF ~opened \/ in # r.n \/ ik # r.k THEN Out("error", st)
-        ELSE Out("issued", AuthorizeCommon(st, r.k, r.e, r.n, NONE))
+        \* (observed, not required by any property: on a store-once back end WITH a storage wrapper the duplicate-record
+        \* path reloads the kept record without the wrapper and fails)
+        ELSE IF st.cfg.so /\ st.cfg.sw /\ st.nodes[r.k].present THEN Out("error", st)
+        ELSE LET st1 == AuthorizeCommon(st, r.k, r.e, r.n, NONE) rec == st1.nodes[r.k] IN
+             \* final comparisons of the fetch against the record in use (differs from the request only on a
+             \* store-once back end that kept an older record)
+             IF rec.nonce = r.n /\ rec.enc = r.e THEN Out("issued", st1) ELSE Out("error", st1)
   ELSE IF r.n \in Nonces THEN
      IF ~st.nodes[r.k].present THEN Out("empty", st)
      ELSE IF st.nodes[r.k].nonce = r.n /\ st.nodes[r.k].enc = r.e /\ st.nodes[r.k].kt = "ed" /\ st.nodes[r.k].srv # 0
@@ -158,7 +175,11 @@ DoFetch(st, r) ==
 (***************************************************************************)
 Muts == {"none", "flipBundle", "flipSig", "truncBundle", "truncSig", "signedByOther",
          "noBundle", "noSig", "noCertKey", "badCertType", "noNonce", "noEncKey", "badEncType",
-         "noiseBundle", "noiseSig"}
+         "noiseBundle", "noiseSig",
+         \* structure-aware mutations of a validly signed bundle, and signed bundles whose window fields are unusable
+         \* (a missing not-before or out-of-range nanoseconds still denote an instant for the code and are not
+         \* claimed invalid here; a missing not-after is the epoch, i.e. long expired)
+         "appendField22", "appendUnknownField", "noNotAfter"}
 InWindow(v) == (v.nb + v.sknb <= 0) /\ (0 <= v.na + v.skna)
 ValidReq(v) == v.mut = "none" /\ InWindow(v)
 
@@ -177,7 +198,7 @@ Verified(st, q, c) == st.nodes[c].kt = "ed" /\ q.nsig = c /\ (q.hasState => q.ss
 LookupSeq(st, q) ==   \* records examined, in order
   IF q.nid # NONE /\ st.cfg.nidl
   THEN SelectSeq(q.order, LAMBDA c : st.nodes[c].present /\ st.nodes[c].nid = q.nid)
-  ELSE IF st.nodes[q.k].present THEN <<q.k>> ELSE <<>>
+  ELSE IF q.k \in CertKeys /\ st.nodes[q.k].present THEN <<q.k>> ELSE <<>>
 
 GenOK(st, q) == \E i \in 1..Len(LookupSeq(st, q)) : Verified(st, q, LookupSeq(st, q)[i])
 
@@ -241,6 +262,7 @@ Apply(st, o) ==
     [] o.op = "StripSrv"    -> DoStripSrv(st, o)
     [] o.op = "TamperTime"  -> DoTamperTime(st, o)
     [] o.op = "Transplant"  -> DoTransplant(st, o)
+    [] o.op = "TransplantWhole" -> DoTransplantWhole(st, o)
     [] o.op = "Fetch"       -> DoFetch(st, o)
     [] o.op = "Submit"      -> DoSubmit(st, o)
     [] o.op = "CreateRequest" -> Out("ok", [st EXCEPT !.gen = st.gen + 1])   \* an honest node-built request for a key outside the pool, authorised at once
@@ -253,7 +275,9 @@ Apply(st, o) ==
 NoWrap == [ww |-> NONE, wk |-> NONE, wn |-> NONE]
 NoRewrap == [rby |-> NONE, rwith |-> NONE, rk |-> NONE, rn |-> NONE]
 
-FetchCore == [op : {"Fetch"}, k : CertKeys, e : EncKeys, n : AllNonces, life : Lives]
+\* selfinfo: the signed bundle itself carries a pre-populated (self-asserted) registration-flow info naming the
+\* request's own key and nonce - a field the server is meant to fill in only after unsealing; it must not matter
+FetchCore == [op : {"Fetch"}, k : CertKeys, e : EncKeys, n : AllNonces, life : Lives, selfinfo : BOOLEAN]
 Wraps == {NoWrap} \cup [ww : {"W1", "W2"}, wk : CertKeys, wn : AllNonces \ {"tf", "tg"}]
 Rewraps == {NoRewrap} \cup [rby : CertKeys, rwith : CertKeys \cup {"rand"}, rk : CertKeys, rn : AllNonces \ {"tf", "tg"}]
 
@@ -265,7 +289,7 @@ WrapCombos == ({NoWrap} \X Rewraps) \cup (Wraps \X {NoRewrap})
 FetchReqs == {Merge(Merge(c, wc[1]), wc[2]) : c \in FetchCore, wc \in WrapCombos}
 
 \* requests whose life class is irrelevant are normalised to "default" to keep the universe small
-FetchReqsN == {r \in FetchReqs : r.n \notin Tokens => r.life = "default"}
+FetchReqsN == {r \in FetchReqs : (r.n \notin Tokens => r.life = "default") /\ (r.selfinfo => r.life = "default")}
 
 AuthorizeOps == [op : {"Authorize"}, k : CertKeys, e : EncKeys, n : Nonces \cup {"tf"}, s : StateOrNone]
 TokenOps == [op : {"CreateToken"}, t : Tokens, s : StateOrNone]
@@ -276,11 +300,11 @@ NidOps == [op : {"SetNid"}, k : CertKeys, nid : NodeIds]
 PrevOps == [op : {"SetPrev"}, k : CertKeys, from : CertKeys]
 KeyKindOps == [op : {"SetKeyKind"}, k : CertKeys]
 StripOps == [op : {"StripSrv"}, k : CertKeys]
-TamperOps == [op : {"TamperTime"}, t : Tokens] \cup [op : {"Transplant"}, t : Tokens, t2 : Tokens]
+TamperOps == [op : {"TamperTime"}, t : Tokens] \cup [op : {"Transplant", "TransplantWhole"}, t : Tokens, t2 : Tokens]
 
 Perms(S) == {s \in [1..Cardinality(S) -> S] : \A i, j \in 1..Cardinality(S) : i # j => s[i] # s[j]}
 
-GenCertOpsAll == [op : {"GenCerts"}, k : CertKeys, nid : NodeIds \cup {NONE}, order : Perms(CertKeys),
+GenCertOpsAll == [op : {"GenCerts"}, k : CertKeys \cup {"kx"}, nid : NodeIds \cup {NONE}, order : Perms(CertKeys),
                nsig : CertKeys \cup {NONE, "kx"}, hasState : BOOLEAN, ssig : CertKeys \cup {NONE, "kx"},
                skip : BOOLEAN]
 
